@@ -1,8 +1,9 @@
 #![no_main]
 use libfuzzer_sys::fuzz_target;
 
-// The input bytes are the random stream of the C14/complete proptest strategy; the same oracle as in
-// `./check C14` runs inside the target (see harness/src/lib.rs: fuzz_one).
+// The input bytes are decoded into the case type of C14/complete by the structure-preserving serde decoder
+// (harness/src/bytede.rs), sanitized into the generator's domain, and judged by the same oracle as in
+// `./check C14` (harness/src/lib.rs: fuzz_one).
 fuzz_target!(|data: &[u8]| {
     avh::fuzz_one("C14", "complete", data);
 });
